@@ -1,6 +1,13 @@
 package c10
 
-import "verifharness/gen"
+import (
+	"verifharness/engines/pipe"
+	"verifharness/gen"
+)
 
-// runTransports is filled in together with the HTTP model (Model/Http.v).
-func runTransports(c *gen.Ctx, r *gen.Rand, meta *gen.Meta) (int, error) { return 0, nil }
+// runTransports sends malformed and well-formed requests through every single-response transport of a
+// real handler.Server (shared with C03/C07/C09: engines/pipe); the C10 monitor requires that the recover
+// hook is never reached and that malformed input is answered with a well-formed client error.
+func runTransports(c *gen.Ctx, r *gen.Rand, meta *gen.Meta) (int, error) {
+	return pipe.Generate(c, "C10", r, meta)
+}
